@@ -1,0 +1,100 @@
+//go:build verif
+
+// Contracts for package lexer, read by /verif/bin/govc (comment-only file).
+
+package lexer
+
+//@ ghost tokOK(t Int, v Str) Bool = (t == const("lexer.StringLiteralToken") || t == const("lexer.JSONLiteralToken") || t == const("lexer.QuotedIdentifierToken") ==> len(v) >= 2) && (t == const("lexer.ObjectWildcardToken") ==> len(v) >= 1)
+
+//@ func Lexer.Next
+//@   tags C04 C16 C09 C03
+//@   assigns l.position, *t
+//@   requires pos: 0 <= l.position && l.position <= len(l.expression)
+//@   ensures pos: 0 <= l.position && l.position <= len(l.expression) && l.expression == old(l.expression)
+//@   ensures[C09] progress: result == nil && t.Type != const("lexer.EndToken") ==> l.position > old(l.position)
+//@   ensures[C03 C16] delimiters: result == nil ==> tokOK(t.Type, t.Value)
+
+// decodeRune: end of input and undecodable bytes are errors; everything else is a rune of 1..4 bytes.
+// A validly encoded U+FFFD (three bytes) is an ordinary rune (C16).
+//@ func Lexer.decodeRune
+//@   tags C03 C04 C16 C09
+//@   requires pos: 0 <= pos && pos <= len(l.expression)
+//@   ensures decoded: decodePost(l.expression[pos:len(l.expression)], result0, result1)
+//@   ensures[C03] eof: pos == len(l.expression) ==> result2 != nil
+//@   ensures[C16 C04] valid: pos < len(l.expression) && !(result0 == 65533 && result1 == 1) ==> result2 == nil
+//@   ensures[C04] invalid: result0 == 65533 && result1 == 1 ==> result2 != nil
+//@   ensures size: result2 == nil ==> 1 <= result1 && result1 <= 4 && pos + result1 <= len(l.expression)
+
+//@ func Lexer.quotedIdentifier
+//@   tags C16 C04 C09 C03
+//@   assigns l.position, *t
+//@   requires 0 <= start && start < next && next <= len(l.expression)
+//@   ensures result == nil ==> t.Type == const("lexer.QuotedIdentifierToken") && same(t.Value, l.expression[start:l.position]) && l.position > next && l.position <= len(l.expression) && l.expression[l.position - 1] == '"'
+//@   ensures l.expression == old(l.expression) && (result != nil ==> l.position == old(l.position))
+//@   loop 1
+//@     invariant start < next && next <= len(l.expression) && next >= next0 && l.position == old(l.position) && l.expression == old(l.expression)
+//@     decreases len(l.expression) - next
+//@     bound len(l.expression)
+
+//@ func Lexer.stringLiteral
+//@   tags C16 C04 C09 C03
+//@   assigns l.position, *t
+//@   requires 0 <= start && start < next && next <= len(l.expression)
+//@   ensures result == nil ==> t.Type == const("lexer.StringLiteralToken") && same(t.Value, l.expression[start:l.position]) && l.position > next && l.position <= len(l.expression) && l.expression[l.position - 1] == '\''
+//@   ensures l.expression == old(l.expression) && (result != nil ==> l.position == old(l.position))
+//@   loop 1
+//@     invariant start < next && next <= len(l.expression) && next >= next0 && l.position == old(l.position) && l.expression == old(l.expression)
+//@     decreases len(l.expression) - next
+//@     bound len(l.expression)
+
+//@ func Lexer.jsonLiteral
+//@   tags C16 C04 C09 C03
+//@   assigns l.position, *t
+//@   requires 0 <= start && start < next && next <= len(l.expression)
+//@   ensures result == nil ==> t.Type == const("lexer.JSONLiteralToken") && same(t.Value, l.expression[start:l.position]) && l.position > next && l.position <= len(l.expression) && l.expression[l.position - 1] == '`'
+//@   ensures l.expression == old(l.expression) && (result != nil ==> l.position == old(l.position))
+//@   loop 1
+//@     invariant start < next && next <= len(l.expression) && next >= next0 && l.position == old(l.position) && l.expression == old(l.expression)
+//@     decreases len(l.expression) - next
+//@     bound len(l.expression)
+
+//@ func Lexer.numberLiteral
+//@   tags C04 C09 C03
+//@   assigns l.position, *t
+//@   requires 0 <= start && start < next && next <= len(l.expression)
+//@   ensures result == nil && t.Type == const("lexer.IntegerLiteralToken") && same(t.Value, l.expression[start:l.position]) && l.position >= next && l.position <= len(l.expression)
+//@   ensures l.expression == old(l.expression)
+//@   loop 1
+//@     invariant start < next && next <= len(l.expression) && next >= next0 && l.position == old(l.position) && l.expression == old(l.expression)
+//@     decreases len(l.expression) - next
+//@     bound len(l.expression)
+
+//@ func Lexer.unquotedIdentifier
+//@   tags C04 C09 C03 C19
+//@   assigns l.position, *t
+//@   requires 0 <= start && start < next && next <= len(l.expression)
+//@   ensures result == nil && (t.Type == const("lexer.UnquotedIdentifierToken") || t.Type == const("lexer.InToken") || t.Type == const("lexer.LetToken")) && same(t.Value, l.expression[start:l.position]) && l.position >= next && l.position <= len(l.expression)
+//@   ensures[C04 C19] keywords: (t.Type == const("lexer.InToken") <==> t.Value == "in") && (t.Type == const("lexer.LetToken") <==> t.Value == "let")
+//@   ensures l.expression == old(l.expression)
+//@   loop 1
+//@     invariant start < next && next <= len(l.expression) && next >= next0 && l.position == old(l.position) && l.expression == old(l.expression)
+//@     decreases len(l.expression) - next
+//@     bound len(l.expression)
+
+//@ func Lexer.variable
+//@   tags C04 C09 C03 C19
+//@   assigns l.position, *t
+//@   requires 0 <= start && start < next && next <= len(l.expression)
+//@   ensures result == nil && (t.Type == const("lexer.RootToken") || t.Type == const("lexer.VariableToken")) && same(t.Value, l.expression[start:l.position]) && l.position >= next && l.position <= len(l.expression)
+//@   ensures[C19] root: t.Type == const("lexer.RootToken") <==> l.position == next
+//@   ensures l.expression == old(l.expression)
+//@   loop 1
+//@     invariant start < next && next <= len(l.expression) && next > next0 && l.position == old(l.position) && l.expression == old(l.expression)
+//@     decreases len(l.expression) - next
+//@     bound len(l.expression)
+
+//@ func Lexer.Next
+//@   loop 1
+//@     invariant 0 <= l.position && l.position < len(l.expression) && l.position >= old(l.position) && l.expression == old(l.expression)
+//@     decreases len(l.expression) - l.position
+//@     bound len(l.expression)
